@@ -191,7 +191,7 @@ def check_C01(ctx):
 def check_C02(ctx):
     res = Result()
     lines, meta = [], []
-    for ent, lay, fr in gen_frames(ctx, ctx.n(4, 40), maxrep=ctx.rng.choice([3, 5])):
+    for ent, lay, fr in gen_frames(ctx, ctx.n(10, 150), maxrep=ctx.rng.choice([3, 5])):
         for bf in (1, 0):
             lines.append(f"parse {ent['mode']} 1 {bf} {fr.hex()}")
             meta.append((ent, lay, bf))
@@ -353,7 +353,7 @@ def check_C03(ctx):
     FACTS.update(ctx.facts)
     lines, meta = [], []
     # (a) parse a laid-out frame, feed the reported attributes back into the constructor
-    for ent, lay, fr in gen_frames(ctx, ctx.n(3, 30)):
+    for ent, lay, fr in gen_frames(ctx, ctx.n(8, 120)):
         if not kw_constructible(ent) or has_var_group(ent["defn"]):
             continue
         for bf in (1, 0):
@@ -364,7 +364,7 @@ def check_C03(ctx):
             lines.append(f"construct {ent['cls'].hex()} {ent['id'].hex()} {ent['mode']} {bf} A " + " ".join(toks))
             meta.append(("roundtrip", ent, lay, bf, kw))
     # (b) random subsets of attributes, the rest must come out zero/blank
-    for ent, lay, fr in gen_frames(ctx, ctx.n(2, 20)):
+    for ent, lay, fr in gen_frames(ctx, ctx.n(5, 80)):
         if not kw_constructible(ent) or has_var_group(ent["defn"]):
             continue
         bf = 1
@@ -941,6 +941,9 @@ def nmea_frame(rng):
         m = NMEAMessage("GP", "GGA", 0, time="11:22:33", lat=51.5 + rng.random(), NS="N", lon=0.12, EW="W", quality=1,
                         numSV=rng.randrange(4, 12), HDOP=1.1, alt=56.0, altUnit="M", sep=47.0, sepUnit="M")
         return m.serialize()
+    if kind < 0.86:
+        # LF-terminated line without a '*' checksum delimiter: pynmeagps returns None without raising
+        return b"$GNGLL,5327.04319,N,00214.41396,W\r\n" if rng.random() < 0.5 else b"$PUBX,41\n"
     # proprietary sentence ($P…) with an unknown id: pynmeagps rejects or accepts, either is fine
     body = b"PUBX,00,081350.00,4717.113210,N,00833.915187,E,546.589,G3,2.1,2.0,0.007,77.52,0.007,,0.92,1.19,0.77,9,0,0"
     ck = 0
@@ -1118,7 +1121,7 @@ def check_C06(ctx):
     res = Result()
     rng = ctx.rng
     streams, fr_of = [], {}
-    for _ in range(ctx.n(250, 4000)):
+    for _ in range(ctx.n(1500, 30000)):
         frames, s = clean_stream(ctx, corrupt_p=0.2, noise_p=0.35)
         streams.append(s)
         fr_of[s] = frames
@@ -1326,7 +1329,7 @@ def check_C09(ctx):
     rng = ctx.rng
     lines, meta = [], []
     streams = []
-    for _ in range(ctx.n(40, 600)):
+    for _ in range(ctx.n(150, 2500)):
         if rng.random() < 0.6:
             frames, s = clean_stream(ctx, corrupt_p=0.15)
             streams.append((s, frames))
@@ -1417,7 +1420,7 @@ def check_C10(ctx):
         vs.append(("file", 0, 7, 1, 0, 1, 1))
         streams.append(s)
         variants_of[s] = vs
-    for _ in range(ctx.n(120, 2500)):
+    for _ in range(ctx.n(500, 10000)):
         s = clean_stream(ctx, corrupt_p=0.15)[1] if rng.random() < 0.6 else garbage_stream(ctx)
         s = s[:rng.choice([len(s), len(s), rng.randrange(len(s) + 1)])]
         if s in variants_of:
@@ -1515,7 +1518,7 @@ CHECKS["C10"] = check_C10
 def check_C11(ctx):
     res = Result()
     rng = ctx.rng
-    streams = [clean_stream(ctx, corrupt_p=0.2)[1] if rng.random() < 0.5 else garbage_stream(ctx) for _ in range(ctx.n(120, 2000))]
+    streams = [clean_stream(ctx, corrupt_p=0.2)[1] if rng.random() < 0.5 else garbage_stream(ctx) for _ in range(ctx.n(400, 8000))]
     def variants(s):
         mode, val, bf, q = rng.choice([0, 3]), rng.choice([0, 1]), rng.choice([0, 1]), rng.choice([0, 1])
         return [("file", q, F, P, mode, val, bf) for F in range(8) for P in (1, 0)]
@@ -1566,7 +1569,7 @@ CHECKS["C11"] = check_C11
 def check_C12(ctx):
     res = Result()
     rng = ctx.rng
-    streams = [clean_stream(ctx, corrupt_p=0.45)[1] if rng.random() < 0.6 else garbage_stream(ctx) for _ in range(ctx.n(200, 4000))]
+    streams = [clean_stream(ctx, corrupt_p=0.45)[1] if rng.random() < 0.6 else garbage_stream(ctx) for _ in range(ctx.n(800, 15000))]
     def variants(s):
         F, P, mode, val, bf = rng.choice([7, 7, 3, 6]), 1, rng.choice([0, 3]), rng.choice([0, 1, 1]), rng.choice([0, 1])
         return [("file", q, F, P, mode, val, bf) for q in (0, 1, 2)]
@@ -1611,8 +1614,49 @@ def check_C12(ctx):
         res.count()
         if len(calls) != nrej or len(got) != len(exp_items):
             res.finding("class=handler-count-wrong", f"{len(calls)} handler calls for {nrej} rejected frames", dict(stream=s.hex()))
+    # handler absent: same items / same raised exception; under ERR_LOG the rejection goes to the logger, once each
+    import logging
+
+    class Counter(logging.Handler):
+        def __init__(self):
+            super().__init__()
+            self.n = 0
+
+        def emit(self, record):
+            self.n += 1
+    lg = logging.getLogger("pyubx2.ubxreader")
+    for s in rng.sample(list(dict.fromkeys(streams)), min(len(set(streams)), ctx.n(120, 1500))):
+        for q in (0, 1, 2):
+            ref_items, ref_calls, ref_raised, ref_crash = None, None, None, None
+            outs = []
+            for handler in (True, False):
+                calls = []
+                cnt = Counter()
+                lg.addHandler(cnt)
+                old_prop = lg.propagate
+                lg.propagate = False
+                raised = "none"
+                items = []
+                try:
+                    rd = UBXReader(io.BytesIO(s), quitonerror=q, errorhandler=(lambda e: calls.append(canon.excname(e))) if handler else None)
+                    for raw, parsed in rd:
+                        items.append((raw, parsed is None))
+                except Exception as e:  # noqa
+                    raised = canon.excname(e)
+                finally:
+                    lg.removeHandler(cnt)
+                    lg.propagate = old_prop
+                outs.append((items, raised, len(calls) if handler else cnt.n))
+            res.count(2)
+            (i1, r1, n1), (i2, r2, n2) = outs
+            if i1 != i2 or r1 != r2:
+                res.finding(f"class=handler-presence-changes-delivery;q={q}", "items / raised exception differ with and without an error handler", dict(stream=s.hex(), q=q, with_handler=[len(i1), r1], without=[len(i2), r2]))
+            elif q == 1 and n1 != n2:
+                res.finding("class=logger-count-differs", f"{n1} handler calls but {n2} log records", dict(stream=s.hex()))
+            elif q != 1 and n2 != 0:
+                res.finding(f"class=logged-under-q{q}", "something was logged although the policy is not ERR_LOG", dict(stream=s.hex()))
     samples = [dict(stream=s.hex()[:80]) for s in streams[:3]]
-    return res.finish("distinct streams × 3 policies (good/corrupted frames of three protocols, garbage)", samples)
+    return res.finish("distinct streams × 3 policies (good/corrupted frames of three protocols, garbage), handler present and absent", samples)
 
 
 CHECKS["C12"] = check_C12
